@@ -144,7 +144,11 @@ Definition ctor_res_eqb (a b : outcome (pspan * Z * Z)) : bool :=
   | Raise x, Raise y => exn_eqb x y
   | Ret (sa, la, da), Ret (sb, lb, db) =>
       zlist_eqb (sp_labels sa) (sp_labels sb) && Z.eqb la lb && Z.eqb da db
-      && match sp_kind sa, sp_kind sb with SList, SList | SRange, SRange | SArray, SArray => true | _, _ => false end
+      && match sp_kind sa, sp_kind sb with
+         | SList, SList | STuple, STuple | SRange, SRange | SArray, SArray | SIndex, SIndex
+         | SPeriodIndex, SPeriodIndex | SDatetimeIndex, SDatetimeIndex => true
+         | _, _ => false
+         end
   | _, _ => false
   end.
 
